@@ -466,3 +466,58 @@ Proof. intros H. unfold dropz. apply skipn_all2. unfold zlen in H. lia. Qed.
 
 Lemma takez_0 {A} (l : list A) : takez 0 l = [].
 Proof. reflexivity. Qed.
+
+(* ---------- positions after an extended-slice deletion / assignment ---------- *)
+Lemma nthz_cons_pos {A} (x : A) r i : 0 < i -> nthz (x :: r) i = nthz r (i - 1).
+Proof.
+  intros H. unfold nthz. assert (Hc : (i <? 0) = false) by lia. assert (Hd : (i - 1 <? 0) = false) by lia.
+  rewrite Hc, Hd. replace (Z.to_nat i) with (S (Z.to_nat (i - 1))) by lia. reflexivity.
+Qed.
+
+Lemma nthz_cons_0 {A} (x : A) r : nthz (x :: r) 0 = Some x.
+Proof. reflexivity. Qed.
+
+Lemma nthz_nil {A} i : nthz (@nil A) i = None.
+Proof. unfold nthz. destruct (i <? 0); [reflexivity|]. destruct (Z.to_nat i); reflexivity. Qed.
+
+(* the number of range elements in [j, i) is at most i - j *)
+Lemma cnt_diff_bounds s e t (Ht : 0 < t) : forall d j, 0 <= d ->
+  0 <= range_len s (Z.min (j + d) e) t - range_len s (Z.min j e) t <= d.
+Proof.
+  intros d j Hd. revert j. pattern d. apply natlike_ind; [| |exact Hd].
+  - intro j. replace (j + 0) with j by lia. lia.
+  - intros x Hx IH j. replace (j + Z.succ x) with ((j + x) + 1) by lia.
+    rewrite cnt_step by assumption. specialize (IH j).
+    destruct (in_range (j + x) s e t); lia.
+Qed.
+
+Lemma nthz_drop_range {A} (l : list A) s e t (Ht : 0 < t) : forall j i,
+  j <= i -> in_range i s e t = false ->
+  nthz (drop_range j s e t l)
+       (i - j - (range_len s (Z.min i e) t - range_len s (Z.min j e) t)) = nthz l (i - j).
+Proof.
+  induction l as [|x r IH]; intros j i Hji Hir; cbn [drop_range].
+  - rewrite !nthz_nil. reflexivity.
+  - destruct (Z.eq_dec i j) as [->|Hne].
+    + rewrite Hir. replace (j - j - _) with 0 by lia. replace (j - j) with 0 by lia. reflexivity.
+    + pose proof (cnt_step s e t j Ht) as Hstep.
+      pose proof (cnt_diff_bounds s e t Ht (i - (j + 1)) (j + 1) ltac:(lia)) as Hb.
+      replace (j + 1 + (i - (j + 1))) with i in Hb by lia.
+      rewrite (nthz_cons_pos x r (i - j)) by lia.
+      replace (i - j - 1) with (i - (j + 1)) by lia.
+      destruct (in_range j s e t).
+      * rewrite <- (IH (j + 1) i ltac:(lia) Hir). f_equal. lia.
+      * rewrite nthz_cons_pos by lia. rewrite <- (IH (j + 1) i ltac:(lia) Hir). f_equal. lia.
+Qed.
+
+Lemma nthz_put_range {A} (l xs : list A) s e t : forall j i,
+  j <= i -> in_range i s e t = false ->
+  nthz (put_range j s e t xs l) (i - j) = nthz l (i - j).
+Proof.
+  induction l as [|x r IH]; intros j i Hji Hir; cbn [put_range].
+  - rewrite !nthz_nil. reflexivity.
+  - destruct (Z.eq_dec i j) as [->|Hne].
+    + rewrite Hir. replace (j - j) with 0 by lia. reflexivity.
+    + rewrite !nthz_cons_pos by lia. replace (i - j - 1) with (i - (j + 1)) by lia.
+      apply IH; [lia | exact Hir].
+Qed.
